@@ -355,6 +355,36 @@ fn expand(rng: &mut Rng, t: &Term, depth: usize) -> Term {
         }
     }
 }
+/// plant redexes that DISCARD the variable bound `d` binders up: some subterms u become (\_. u) x.  The body then uses x
+/// several times although every copy is erased later - the shape a "reduce the shared argument first" shortcut gets wrong.
+fn plant_discards(rng: &mut Rng, t: &Term, d: usize, left: &mut usize) -> Term {
+    if *left > 0 && rng.chance(1, 3) {
+        *left -= 1;
+        let inner = plant_discards(rng, t, d, left);
+        return app(abs(shift(&inner, 1, 0)), Var(d + 1));
+    }
+    match t {
+        Var(_) => t.clone(),
+        Abs(b) => abs(plant_discards(rng, b, d + 1, left)),
+        App(p) => app(plant_discards(rng, &p.0, d, left), plant_discards(rng, &p.1, d, left)),
+    }
+}
+/// (\x. s') junk  where s' mentions x two or more times and discards every copy; junk has no weak head normal form
+fn expand_shared_junk(rng: &mut Rng, t: &Term) -> Term {
+    let s1 = shift(t, 1, 0);
+    let mut left = 2 + rng.below(2) as usize;
+    let mut body = plant_discards(rng, &s1, 0, &mut left);
+    while left > 0 {
+        left -= 1;
+        body = match body {
+            // keep a leading lambda prefix and the head variable in place: discard inside the operands / at the root
+            Abs(b) => abs(app(abs(shift(&b, 1, 0)), Var(2))),
+            other => app(abs(shift(&other, 1, 0)), Var(1)),
+        };
+    }
+    let junk = if rng.chance(1, 2) { omega() } else { app(omega(), abs(Var(1))) };
+    app(abs(body), junk)
+}
 /// replace some arguments of the head variable (below the lambda prefix) by diverging terms
 fn poison(rng: &mut Rng, t: &Term) -> Term {
     match t {
@@ -379,10 +409,22 @@ fn suite_normalise(out: &mut Out, tier: &str, rng: &mut Rng) {
     let n = if tier == "thorough" { 20000 } else { 2500 };
     for _ in 0..n {
         let b = 2 + rng.below(14) as usize;
-        let nf = random_nf(rng, b, 0, 2);
+        let mut nf = random_nf(rng, b, 0, 2);
         let mut t = nf.clone();
         for _ in 0..(1 + rng.below(5)) {
             t = expand(rng, &t, 0);
+        }
+        if rng.chance(1, 3) {
+            // the argument is duplicated by the body and every copy is discarded later (possibly under binders, possibly in an
+            // operand of a head variable): the normal form still exists and NOR/HNO must find it
+            t = expand_shared_junk(rng, &t);
+            if rng.chance(1, 2) {
+                t = expand(rng, &t, 0);
+            }
+            if rng.chance(1, 3) {
+                t = abs(abs(app(Var(2), shift(&t, 2, 0))));
+                nf = abs(abs(app(Var(2), shift(&nf, 2, 0))));
+            }
         }
         out.line(format!("planted\t{}\t{}", ser(&t), ser(&nf)));
         for o in [NOR, HNO, CBN, HSP] {
@@ -959,6 +1001,43 @@ fn suite_parse(out: &mut Out, tier: &str, rng: &mut Rng) {
     }
     for w in ["lambda 1", "λ 1", "λ1λ2", "λ1 λ2", "undefined", "0", "00", "λ0", "G", "1G", "λ10", "λA", "λa", "λ F f"] {
         parse_line(out, w, false);
+    }
+    // many binders / many distinct free names in classic notation: indices far beyond a byte are resolved exactly
+    for n in [200usize, 255, 256, 257, 300, 1000, 70000] {
+        begin(format!("parse-wide {}", n));
+        // \x0.\x1. .. \x{n-1}. x0 x{n/2} x{n-1} g x0 h g   (g, h free: numbered n+1, n+2 by first appearance)
+        let mut s = String::new();
+        for k in 0..n {
+            s.push_str(&format!("λx{}.", k));
+        }
+        s.push_str(&format!("x0 x{} x{} g x0 h g", n / 2, n - 1));
+        let mut expect = app!(Var(n), Var(n - n / 2), Var(1), Var(n + 1), Var(n), Var(n + 2), Var(n + 1));
+        for _ in 0..n {
+            expect = abs(expect);
+        }
+        if n <= 300 {
+            parse_line(out, &s, true);
+        }
+        let r = guarded(|| parse(&s, Classic));
+        out.line(format!("deep\tcla-far-binders\t{}\t{}", n, matches!(r, Ok(Ok(ref t)) if *t == expect)));
+        std::mem::forget(expect);
+        // f0 f1 .. f{n-1} f0 f{n-1}: free names numbered in order of first appearance
+        let mut s = String::new();
+        let mut expect = Var(1);
+        for k in 0..n {
+            s.push_str(&format!("f{} ", k));
+            if k > 0 {
+                expect = app(expect, Var(k + 1));
+            }
+        }
+        s.push_str(&format!("f0 f{}", n - 1));
+        expect = app(app(expect, Var(1)), Var(n));
+        if n <= 300 {
+            parse_line(out, &s, true);
+        }
+        let r = guarded(|| parse(&s, Classic));
+        out.line(format!("deep\tcla-wide-free\t{}\t{}", n, matches!(r, Ok(Ok(ref t)) if *t == expect)));
+        std::mem::forget(expect);
     }
     // deep nesting: redundant parentheses and right-nested groups far beyond any "reasonable" depth still parse
     for depth in [1000usize, 1025, 1500, 3000, 20000] {
